@@ -97,6 +97,22 @@ def where_of(reason, toks):
         or "unterminated" in reason else "inner"
 
 
+def before_class(toks, idx):
+    """What stands directly before the stray '=' at toks[idx]?"""
+    if idx <= 0 or idx > len(toks):
+        return "start-of-text"
+    p = toks[idx - 1]
+    if p.kind == G.VAL:
+        c = (p.cls or "").split(":")[0]
+        return {"int": "number", "real": "number", "based": "number",
+                "temporal": "date-or-time", "quoted": "quoted-string",
+                "keyword": "null-or-boolean", "unquoted": "unquoted-string"}.get(c, c)
+    return {G.SEMI: "delimiter", G.RP: "closing-bracket", G.RB: "closing-bracket",
+            G.UNITS: "units", G.NAME: "name", G.EQ: "equals", G.COMMA: "comma",
+            G.LP: "opening-bracket", G.LB: "opening-bracket", G.BEGIN: "begin-keyword",
+            G.ENDKW: "end-keyword", G.DAMAGED: "damaged-token"}.get(p.kind, p.kind)
+
+
 def judge(rec, pvl, reader, toks, wit, holder):
     text = render_plain(toks)
     ref = recognise(toks, reader)
@@ -134,15 +150,19 @@ def judge(rec, pvl, reader, toks, wit, holder):
     if st == "ok" and tr is not None:
         for kind, detail in trace_laws(tr, res):
             rec.count("trace_law_violations")
-            rec.violation(CHECK, reader, kind,
-                          {"family": family, "ref": ref[0] if ref[0] == "ok" else ref[1]},
-                          wit, detail)
+            f_law = {"family": family, "ref": ref[0] if ref[0] == "ok" else ref[1]}
+            if ref[0] == "ill" and ref[1] == "stray-token:EQ" and isinstance(ref[2], int):
+                f_law["before_the_stray_equals"] = before_class(toks, ref[2])
+            rec.violation(CHECK, reader, kind, f_law, wit, detail)
         rec.count("trace_laws_evaluated")
     if ref[0] == "ill":
         reason = ref[1]
         if st == "ok":
+            f_ill = {"family": family, "ref": reason}
+            if reason == "stray-token:EQ" and isinstance(ref[2], int):
+                f_ill["before_the_stray_equals"] = before_class(toks, ref[2])
             rec.violation(CHECK, reader, "module-returned-for-ill-formed-text",
-                          {"family": family, "ref": reason}, wit,
+                          f_ill, wit,
                           f"ill-formed ({reason}) yet loader returned "
                           f"{[k for k, _ in list(res)]}")
         elif st not in ("LexerError", "ParseError"):
